@@ -73,9 +73,9 @@ class Sim:
         return hs[i], hs[j]
 
     # ------------------------------------------------------------------ jobs
-    def execute(self, hs: int, programs: dict, ops: list, idhash_seed, timeout=60) -> dict:
+    def execute(self, hs: int, programs: dict, ops: list, idhash_seed, timeout=60, hr_seed=None) -> dict:
         return self.pool.call(
-            hs, {"kind": "run", "programs": programs, "ops": ops, "idhash_seed": idhash_seed, "timeout": timeout}
+            hs, {"kind": "run", "programs": programs, "ops": ops, "idhash_seed": idhash_seed, "hr_seed": hr_seed, "timeout": timeout}
         )
 
     # ------------------------------------------------------------------ oracles
@@ -196,7 +196,7 @@ class Sim:
     def run_seed(self, seed: int, cfg: dict) -> dict:
         plan = gen.gen_plan(seed, cfg)
         hs_run, hs_ref = self.hashseeds_for(seed)
-        res = self.execute(hs_run, plan["programs"], plan["ops"], plan["idhash_seed"])
+        res = self.execute(hs_run, plan["programs"], plan["ops"], plan["idhash_seed"], hr_seed=plan.get("hr_seed"))
         hist = {
             "programs": plan["programs"],
             "ops": res["resolved_ops"],
